@@ -418,7 +418,7 @@ static int bufr_load_tableB( BUFR_Tables *tables, BufrTablesSet *tbls, const cha
          {
          char buf[1024];
 
-         sprintf( buf, _("Info:  Loaded Table B: %s  version=%d\n"), filename, version );
+         snprintf( buf, sizeof(buf), _("Info:  Loaded Table B: %s  version=%d\n"), filename, version );
          bufr_print_debug( buf );
          }
       }
@@ -437,7 +437,7 @@ static int bufr_load_tableB( BUFR_Tables *tables, BufrTablesSet *tbls, const cha
             {
             char buf[1024];
 
-            sprintf( buf, _("Info:  Merged Table B: %s  version=%d\n"), filename, version );
+            snprintf( buf, sizeof(buf), _("Info:  Merged Table B: %s  version=%d\n"), filename, version );
             bufr_print_debug( buf );
             }
          }
